@@ -43,6 +43,10 @@ CHECKS["C11"] = ("other", "history dimension: the real VarPool serves one symbol
   "trusted: go/ssa, the interpreter fork, format.Node stub, cvc5/z3; the parser (packages.Load) is reached only by the gates; GOMAXPROCS/process randomness only through map order (no go statement in the generator, checked on SSA) and repeated CLI runs",
   "symbolic execution of go/ssa + SMT strings (two-run equality), nondeterministic map iteration order in the interpreter, CLI rerun gates", "§5 C11")
 
+CHECKS["C14"] = ("other", "alias allocator: symbolic execution of the real TypeConverter.AddImport over every history of 3 (thorough: 4) calls with symbolic paths/names (same path => same alias, distinct paths => distinct aliases; SMT strings, native replay); import table under every map iteration order; gates through the CLI on the wire corpus: byte-identical second run, gofmt-stable, type-checks with the wire files set aside, each set declared once; invalid inputs (syntax error, type error, duplicate set name, missing constructor) exit non-zero and write nothing",
+  "trusted: go/ssa, the interpreter fork, fmt.Sprintf stub, cvc5/z3, go/types and go/format as oracles of the gates; 'imports exactly what it uses' / 'compiles' only per enumerated configuration; MigrateFiles' failure points are covered through the invalid-input gate, not symbolically",
+  "symbolic execution of go/ssa + SMT strings for the alias allocator; enumeration gates through the real CLI for well-formedness", "§5 C14")
+
 NA_REASON = "check under construction in this session (DESIGN.md §10 build order); not claimed yet"
 
 def main():
